@@ -333,6 +333,17 @@ def _plain(got):
     return ' '.join('!' if f.startswith('!') else f for f in got.split(' '))
 
 
+def equivalent(c, got, model):
+    """the decoders "raise" on bad input - the property names no exception class for them, so the correspondence
+    compares raise / value, not the class (a change of struct.error into ValueError for a wrong length is not a
+    disagreement; found when seed C15-r11-2 was reported for that reason instead of for its defect)"""
+    if got == model:
+        return True
+    if c.args and c.args[0] in ('dec', 'b85d') and model is not None:
+        return _plain(got) == _plain(model)
+    return False
+
+
 def impl(c):
     a = c.args
     if c.platform:
@@ -383,6 +394,20 @@ def impl(c):
                     ('valid', 'bits'): 'valid_bits', ('valid', 'bin'): 'valid_bin'}[(a[0], k)]
             if name in ('bin_to_int', 'packed_to_int'):
                 extra = ()
+            if name == 'packed_to_int' and isinstance(payload, (bytes, bytearray)):
+                # the same bytes as another bytes-like object (a stable hash picks the form): bytearray, memoryview,
+                # and - for an even byte count - a memoryview / array of 16-bit items, whose len() is HALF the byte
+                # count (seed C15-r11-2 sized the input with len() and then consumed the whole buffer)
+                import zlib, array
+                h = zlib.crc32(bytes(payload) + fam.encode()) % 6
+                raw = bytes(payload)
+                if h == 1:
+                    payload = bytearray(raw)
+                elif h == 2:
+                    payload = memoryview(raw)
+                elif h in (3, 4) and raw and len(raw) % 2 == 0:
+                    payload = memoryview(raw).cast('H') if h == 3 else array.array('H', raw)
+                common.COUNTS['call/packed-buffer-form-%d' % h] += 1
             fn = lambda: getattr(mod, name)(payload, *extra)
         if a[0] == 'valid':
             return _try(fn, lambda r: tf(r is True) if isinstance(r, bool) else '?' + repr(r))
